@@ -95,6 +95,7 @@ MUTATING_METHODS = {"append", "extend", "insert", "remove", "pop", "clear", "upd
                     "add_column", "remove_column", "remove_columns", "rename_column",
                     "replace_column", "add_row", "discard", "popitem", "reverse", "setflags",
                     "partition", "byteswap", "add_checksum", "create_dataset", "create_group",
+                    "require_dataset", "require_group",
                     "set", "setfield", "__setitem__", "__delitem__", "seed", "shuffle",
                     "add_index", "keep_columns"}
 IO_WRITE_METHODS = {"write", "writeto", "tofile", "dump", "flush", "close", "savefig", "save",
@@ -122,7 +123,7 @@ PURE_METHODS = {"astype", "copy", "sum", "mean", "var", "std", "min", "max", "ar
                 "hour", "wrap_at", "to_string", "decompose", "is_equivalent", "si", "cgs",
                 # pathlib / importlib.resources path algebra (no file access)
                 "joinpath", "with_suffix", "with_name", "relative_to", "as_posix", "is_absolute",
-                "casefold", "partition", "rpartition", "splitlines", "capitalize", "swapcase",
+                "casefold", "rpartition", "splitlines", "capitalize", "swapcase",
                 "expandtabs", "center", "removeprefix", "removesuffix", "isalpha", "isalnum",
                 "isspace", "isnumeric", "isupper", "islower", "bit_count", "conjugate",
                 "ptp", "argsort", "cumprod", "diagonal", "trace", "compress", "choose", "newbyteorder",
